@@ -128,10 +128,14 @@ def increments (es : List CEv) : Nat := (es.filter CEv.isStore).length
 
 /-! ## Lock facts (produced by the translator) and the discipline checker -/
 
-/-- one access site: variable, write?, locks held there `(lock, exclusive?)`, `file:line` -/
+/-- one access site: variable, write?, kind, locks held there `(lock, exclusive?)`, `file:line`.
+    kind: 0 read, 1 read-modify-write within one statement (`x.f++`, `x.f += e`, `x.f = g(x.f)`),
+    2 plain store, 3 split update (the stored value, or the decision to store, derives from a load of
+    the same variable made in another critical section of its lock) -/
 structure Fact where
   var   : Nat
   write : Bool
+  kind  : Nat
   locks : List (Nat × Bool)
   site  : String
 deriving Repr
@@ -172,5 +176,69 @@ def Conforms (fs : List Fact) (es : List Ev) : Prop :=
   ∀ (pre post : List Ev) (t v : Nat) (w : Bool) (σ : St),
     es = pre ++ Ev.acc t v w :: post → run St.init pre = some σ →
     ∃ f ∈ fs, f.var = v ∧ f.write = w ∧ ∀ p ∈ f.locks, if p.2 then holdsW σ t p.1 else holdsAny σ t p.1
+
+/-- an execution over lock and variable *instances* behaves as the (class level) facts say: `vcls`
+    maps a variable instance to its class (the fact's variable), `obj` to the object instance it lives
+    in, `lockOf o c` is the instance of lock class `c` that belongs to object `o` -/
+def ConformsI (fs : List Fact) (vcls obj : Nat → Nat) (lockOf : Nat → Nat → Nat) (es : List Ev) : Prop :=
+  ∀ (pre post : List Ev) (t v : Nat) (w : Bool) (σ : St),
+    es = pre ++ Ev.acc t v w :: post → run St.init pre = some σ →
+    ∃ f ∈ fs, f.var = vcls v ∧ f.write = w ∧
+      ∀ p ∈ f.locks, if p.2 then holdsW σ t (lockOf (obj v) p.1) else holdsAny σ t (lockOf (obj v) p.1)
+
+/-! ## Values: when is no update lost?  Plain memory semantics of one variable, no discipline built in:
+a read loads the variable into the reading thread's register, a write stores (register + 1). -/
+
+structure VS where
+  mem : Nat
+  reg : Nat → Option Nat
+
+def VS.init : VS := ⟨0, fun _ => none⟩
+
+def vstep (v : Nat) (s : VS) : Ev → VS
+  | .acc t v' false => if v' = v then { s with reg := setReg s.reg t (some s.mem) } else s
+  | .acc t v' true => if v' = v then { s with mem := (s.reg t).getD 0 + 1 } else s
+  | _ => s
+
+def vrun (v : Nat) : VS → List Ev → VS
+  | s, [] => s
+  | s, e :: es => vrun v (vstep v s e) es
+
+def Ev.isWriteTo (v : Nat) : Ev → Bool
+  | .acc _ v' true => v' == v
+  | _ => false
+
+/-- number of updates of `v` performed in the execution -/
+def writesTo (v : Nat) (es : List Ev) : Nat := (es.filter (Ev.isWriteTo v)).length
+
+/-- every write to `v` is the store half of a read-modify-write whose load happened earlier in the same
+    critical section of `ℓ`: the writing thread held `ℓ` exclusively at the load, did not release it and
+    did not store to `v` in between -/
+def AtomicUpdates (ℓ v : Nat) (es : List Ev) : Prop :=
+  ∀ (pre post : List Ev) (t : Nat), es = pre ++ Ev.acc t v true :: post →
+    ∃ (p1 mid : List Ev) (σ : St), pre = p1 ++ Ev.acc t v false :: mid ∧ run St.init p1 = some σ ∧
+      holdsW σ t ℓ ∧ (∀ m, Ev.rel t ℓ m ∉ mid) ∧ Ev.acc t v true ∉ mid
+
+/-- all write sites of `v` are one-statement read-modify-writes holding `ℓ` exclusively -/
+def UpdatesAtomicBy (fs : List Fact) (v ℓ : Nat) : Prop :=
+  ∀ f ∈ fs, f.var = v → f.write = true → f.kind = 1 ∧ (ℓ, true) ∈ f.locks
+
+def IsCounter (fs : List Fact) (v : Nat) : Prop := ∀ f ∈ fs, f.var = v → f.write = true → f.kind = 1
+
+def isCounterB (fs : List Fact) (v : Nat) : Bool := fs.all fun f => !(Nat.beq f.var v) || !f.write || Nat.beq f.kind 1
+
+def noSplitB (fs : List Fact) : Bool := fs.all fun f => !(Nat.beq f.kind 3)
+
+/-- what "behaves as the facts say" means for update sites: a write event belongs to a listed write site
+    whose locks the thread holds; if that site is a one-statement read-modify-write (kind 1), the
+    statement's load precedes it in the same thread with the site's locks held at the load, none of them
+    released and no other store to the variable by this thread in between -/
+def ConformsU (fs : List Fact) (es : List Ev) : Prop :=
+  ∀ (pre post : List Ev) (t v : Nat) (σ : St),
+    es = pre ++ Ev.acc t v true :: post → run St.init pre = some σ →
+    ∃ f ∈ fs, f.var = v ∧ f.write = true ∧
+      (f.kind = 1 → ∃ (p1 mid : List Ev) (σ1 : St), pre = p1 ++ Ev.acc t v false :: mid ∧ run St.init p1 = some σ1 ∧
+        (∀ p ∈ f.locks, if p.2 then holdsW σ1 t p.1 else holdsAny σ1 t p.1) ∧
+        (∀ p ∈ f.locks, ∀ m, Ev.rel t p.1 m ∉ mid) ∧ Ev.acc t v true ∉ mid)
 
 end Locks
